@@ -37,6 +37,7 @@ type c13Ctx struct {
 	ntag  int
 	resp  map[string]*RespPlan
 	hold  bool
+	big   bool // the server was configured to advertise SETTINGS_HEADER_TABLE_SIZE = 8192
 }
 
 func (x *c13Ctx) tag() string {
@@ -108,6 +109,15 @@ func buildProbe(t *rapid.T, x *c13Ctx, k int) *probe {
 	case 11:
 		id := x.newID()
 		tag := x.tag()
+		if x.big && drawBool(t, "tablesizeupdate", 60) {
+			// the block opens with a dynamic table size update to what the server advertised
+			// (8192 > the protocol default of 4096): legal once its SETTINGS has been received
+			if x.hold {
+				x.resp[tag] = &RespPlan{Status: 200, Body: []byte("ok:" + tag), Park: true}
+			}
+			block := append([]byte{0x3f, 0xe1, 0x3f}, x.enc.Block(x.fields(tag, "GET"))...)
+			return &probe{Name: "new request whose header block opens with a table size update to the advertised 8192", Kind: "legal", Frames: HeadersFrames(id, block, true, nil, -1, nil), GoodTag: tag}
+		}
 		return &probe{Name: "new request with END_STREAM", Kind: "legal", Frames: x.request(id, tag, "GET", true, x.hold), GoodTag: tag}
 	case 12:
 		// request with a body and trailers
@@ -293,6 +303,10 @@ func drawC13(t *rapid.T) *Case {
 	p := &Plan{Check: "C13", Backend: BackendPlan{Resp: map[string]*RespPlan{}}, Budget: 20000}
 	aux := &c13Aux{ConnIdx: -1, Hold: true}
 	x := &c13Ctx{enc: NewHEnc(), ci: 0, next: 1, resp: p.Backend.Resp, hold: true}
+	if drawBool(t, "bigtable", 25) {
+		p.H2DecoderTableSize = 8192
+		x.big = true
+	}
 	// no dynamic table: header blocks stay decodable whichever blocks the script ends up sending
 	x.enc.enc.SetMaxDynamicTableSize(0)
 	hello := fixedHello("h2")
